@@ -795,9 +795,13 @@ static var Zip_Iter_Last(var self) {
   struct Tuple* iters = z->iters;
   size_t num = len(iters);
   if (num is 0) { return Terminal; }
+  size_t mlen = len(self);
   for (size_t i = 0; i < num; i++) {
     var last = iter_last(iters->items[i]);
     if (last is Terminal) { return Terminal; }
+    for (size_t j = len(iters->items[i]); j > mlen; j--) {
+      last = iter_prev(iters->items[i], last);
+    }
     values->items[i] = last;
   }
   return values;
